@@ -14,9 +14,17 @@ package main
 import (
 	"context"
 	"encoding/json"
+	"errors"
 	"fmt"
+	goruntime "runtime"
 	"strconv"
 	"strings"
+	"time"
+
+	"k8s.io/apimachinery/pkg/runtime"
+	clienttesting "k8s.io/client-go/testing"
+
+	gatewayfake "github.com/kubewharf/kubegateway/pkg/client/kubernetes/fake"
 
 	metav1 "k8s.io/apimachinery/pkg/apis/meta/v1"
 
@@ -34,7 +42,9 @@ const (
 )
 
 type c09Op struct {
-	Op     string `json:"op"` // quota | cfgsync | count | hb | leader | elapse | strategy | schema | delete | enable
+	Op     string `json:"op"` // quota | cfgsync | count | worker | watchdog | hb | leader | elapse | strategy | schema | delete | enable
+	Idle   bool   `json:"idle"` // worker: no request was counted since the last round
+	Srv    string `json:"srv"`  // worker: what the limiter server does: accept | reject | error | callerr | omit
 	D      string `json:"d"`  // quota: mi | tb | none | both
 	A      int32  `json:"a"`  // quota: max | qps (both: max)
 	B      int32  `json:"b"`  // quota: burst
@@ -96,6 +106,8 @@ type c09Step struct {
 	Adm     int      `json:"adm"`
 	Ready   bool     `json:"ready"`
 	Rem     *remDesc `json:"rem"`
+	LSync   int64    `json:"lsync"` // lastSyncTime (Unix seconds) of the global counter of the schema, -1: no counter
+	Sent    bool     `json:"sent"`  // worker: the limiter server received an acquire request for the schema
 }
 
 func parseDesc(s string) *limDesc {
@@ -236,7 +248,50 @@ func runC09(raw json.RawMessage) interface{} {
 	default:
 		panic("unknown cs " + c.CS)
 	}
+	// the limiter server: a fake clientset whose acquire subresource follows the script of the current round
+	var script *c09Op
+	sent := false
+	fakeClient := gatewayfake.NewSimpleClientset()
+	fakeClient.PrependReactor("create", "ratelimitconditions", func(action clienttesting.Action) (bool, runtime.Object, error) {
+		ca, ok := action.(clienttesting.CreateAction)
+		if !ok || action.GetSubresource() != "acquire" || script == nil {
+			return false, nil, nil
+		}
+		req, _ := ca.GetObject().(*proxyv1alpha1.RateLimitAcquire)
+		asked := false
+		if req != nil {
+			for _, r := range req.Spec.Requests {
+				if r.FlowControl == schema {
+					asked = true
+				}
+			}
+		}
+		sent = sent || asked
+		reply := &proxyv1alpha1.RateLimitAcquire{}
+		switch script.Srv {
+		case "callerr":
+			return true, nil, errors.New("connection refused")
+		case "accept":
+			reply.Status.Results = []proxyv1alpha1.RateLimitAcquireResult{{FlowControl: schema, Accept: true, Limit: script.Limit}}
+		case "reject":
+			reply.Status.Results = []proxyv1alpha1.RateLimitAcquireResult{{FlowControl: schema, Accept: false, Limit: script.Limit}}
+		case "error":
+			reply.Status.Results = []proxyv1alpha1.RateLimitAcquireResult{{FlowControl: schema, Error: "limiter overloaded"}}
+		case "omit":
+			reply.Status.Results = []proxyv1alpha1.RateLimitAcquireResult{{FlowControl: "another-schema", Accept: true, Limit: 1}}
+		default:
+			panic("unknown server behaviour " + script.Srv)
+		}
+		return true, reply, nil
+	})
+	if cs != nil {
+		clientsets.VerifSetClient(cs, shard, "srv", fakeClient)
+	}
+	// virtual clock of remote_counter.go: epoch + virtual milliseconds + one nanosecond per worker round
+	var vnow, rounds int64
+	remote.VerifNow = func() time.Time { return time.Unix(0, vnow*1000000+rounds) }
 	lim := flowcontrols.NewUpstreamLimiter(ctx, cluster, c.Mode, cs)
+	prov := flowcontrols.VerifCounterProvider(lim)
 	strategy := c.Strat
 	lim.Sync(proxyv1alpha1.FlowControl{Schemas: []proxyv1alpha1.FlowControlSchema{mkSchema(&c, strategy)}})
 	cache := lim.AllFlowControls()[schema]
@@ -252,7 +307,6 @@ func runC09(raw json.RawMessage) interface{} {
 		}
 	}()
 	rec := flowcontrols.VerifReconcile(lim)
-	var vnow int64 // virtual milliseconds
 	syncSchemas := func(present bool) {
 		fc := proxyv1alpha1.FlowControl{}
 		if present {
@@ -278,6 +332,17 @@ func runC09(raw json.RawMessage) interface{} {
 			st.Ready = cs.IsReady(cluster)
 		}
 		st.Rem = describeRemote(cache)
+		// the counter manager follows the remote wrapper through goroutines: wait until it has
+		st.LSync = -1
+		if st.Rem != nil && (st.Rem.Inner == "mi" || st.Rem.Inner == "tb") {
+			if v, ok := remote.VerifLastSync(prov, schema); ok {
+				st.LSync = v
+			}
+		} else {
+			remote.VerifCounterGone(prov, schema)
+			goruntime.Gosched()
+			time.Sleep(200 * time.Microsecond)
+		}
 		probe(lim, cache, probeCap(), st)
 		if cs != nil {
 			// the request of the next allocate round is built from the same state; it must not panic either
@@ -343,6 +408,26 @@ func runC09(raw json.RawMessage) interface{} {
 					panic("unknown reply " + op.R)
 				}
 				rw.SetLimit(res)
+			case "worker":
+				// one round of the counter manager's worker against the scripted limiter server
+				rounds++
+				if cs == nil {
+					break
+				}
+				script, sent = &op, false
+				if cache != nil && (op.Srv == "error" || op.Srv == "callerr") {
+					util.VerifSetReadings(remote.VerifMeter(cache), op.MX, float64(op.Rate))
+				}
+				remote.VerifSetEvent(prov, schema, !op.Idle)
+				remote.VerifDoAcquire(prov)
+				st.Sent = sent
+				script = nil
+			case "watchdog":
+				// one tick of the counter's resetCheck loop
+				if cache != nil {
+					util.VerifSetReadings(remote.VerifMeter(cache), op.MX, float64(op.Rate))
+				}
+				remote.VerifWatchdogTick(prov, schema)
 			case "hb":
 				if cs != nil {
 					clientsets.VerifHeartbeatAt(cs, shard, "srv", op.Ready, vnow)
@@ -373,7 +458,7 @@ func runC09(raw json.RawMessage) interface{} {
 			}
 		}()
 		if st.EvPanic {
-			st.Sel, st.Adm = "panic", -1
+			st.Sel, st.Adm, st.LSync, st.Sent = "panic", -1, -1, false
 			steps = append(steps, st)
 			break // an unrecovered panic in the reconcile goroutine ends the process
 		}
@@ -385,5 +470,6 @@ func runC09(raw json.RawMessage) interface{} {
 
 func main() {
 	remote.VerifSetWaitAcquireTimeout(0)
+	remote.VerifManual = true
 	runCases(runC09)
 }
